@@ -19,7 +19,7 @@ Y_PKGS = "./lib/j5schema,./lib/j5reflect,./internal/codec,./lib/j5codec,./j5type
 
 PROPS = {
     "C14": dict(
-        harness="sim/c14", cmd="zzverif_c14", race=False, history_check=True,
+        harness="sim/c14", cmd="zzverif_c14", race=False, history_check=True, crash_is_violation=True, crash_needs_phase="REPLAY-PHASE reference-ok",
         rewrite=["-m", M_PKGS],
         extra_pkgs=[("sim/j5sgen", "internal/zzverif/j5sgen")],
         tiers={
@@ -367,6 +367,40 @@ def check(prop, tier):
     st_dir = os.path.join(d, "selftest")
     os.makedirs(st_dir)
     results, crashed = collect(procs, time.time() + budget * 3 + 600)
+    if crashed and cfg.get("crash_needs_phase"):
+        # A program whose REFERENCE execution kills the process (e.g. runaway recursion in the compiler) says
+        # nothing about this property; skip it and run that worker's stride again (at most 3 times).
+        skips = {}
+        for attempt in range(3):
+            redo = []
+            for w, rc, errname in crashed:
+                marker = os.path.join(outdir, "w%d.json.current" % w)
+                try:
+                    m = json.load(open(marker))
+                except Exception:
+                    continue
+                if m.get("exec_index") == -1 and rc != 3:
+                    skips.setdefault(w, []).append(str(m.get("program_index")))
+                    redo.append(w)
+            if not redo:
+                break
+            crashed = [c for c in crashed if c[0] not in redo]
+            procs2 = []
+            for w in redo:
+                out = os.path.join(outdir, "w%d.json" % w)
+                for f in (out, out + ".current"):
+                    if os.path.exists(f):
+                        os.remove(f)
+                env = goenv({"GOMAXPROCS": str([1, 4, 16][w % 3])})
+                cmd = [binary, "-mode", "worker", "-seed", str(seed), "-worker", str(w), "-workers", str(nworkers),
+                       "-budget", str(budget), "-out", out, "-skip", ",".join(skips[w])] + tcfg["args"]
+                errf = open(os.path.join(outdir, "w%d.stderr" % w), "w")
+                procs2.append((w, subprocess.Popen(cmd, env=env, stdout=subprocess.DEVNULL, stderr=errf, cwd=outdir), out, errf))
+            r2, c2 = collect(procs2, time.time() + budget * 3 + 600)
+            results += r2
+            crashed += c2
+        if skips:
+            print("note: skipped programs whose reference execution crashes the process: %s" % json.dumps(skips), flush=True)
     selftest = do_selftest(binary, prop, seed, st_dir, tcfg["selftest_runs"], [a for a in tcfg["args"] if a != "-deep"])
     crash_viol = []
     if crashed and cfg.get("crash_is_violation"):
@@ -387,6 +421,12 @@ def check(prop, tier):
                 json.dump(v, open(path, "w"), indent=1)
                 env = goenv({"GORACE": "log_path=%s halt_on_error=0 exitcode=0 history_size=4" % os.path.join(outdir, "race.crashreplay")})
                 r = run([binary, "-mode", "replay", "-file", path], env=env, capture_output=True, text=True, cwd=outdir)
+                need = cfg.get("crash_needs_phase")
+                if need and need not in r.stdout:
+                    # the crash also happens in the reference execution: not schedule/order dependent, so
+                    # not this property's business; the worker's death stays machinery trouble
+                    still.append((w, rc, errname))
+                    continue
                 if r.returncode not in (0, 1) and ("fatal error:" in r.stderr or "panic: " in r.stderr):
                     first = [l for l in r.stderr.splitlines() if l.startswith("fatal error:") or l.startswith("panic:")][:1]
                     crash_viol.append(("process_crash", path, v, "REPLAY: the process under test dies again when this run is replayed: %s" % (first[0] if first else "crash")))
@@ -461,7 +501,7 @@ def check(prop, tier):
             env["GORACE"] = "log_path=%s halt_on_error=0 exitcode=0 history_size=4" % os.path.join(outdir, "race.replay")
         r = run([binary, "-mode", "replay", "-file", path], env=env, capture_output=True, text=True, cwd=outdir)
         if r.returncode == 1:
-            new_viol.append((k, path, v, r.stdout.strip()))
+            new_viol.append((k, path, v, "\n".join(l for l in r.stdout.strip().splitlines() if not l.startswith("REPLAY-PHASE"))))
         else:
             unreproduced.append((k, path, r.returncode, (r.stdout + r.stderr)[-2000:]))
 
@@ -542,7 +582,8 @@ def replay(path):
     if r.returncode == 0:
         print("replay: the recorded violation does not occur on the current tree")
         return 0
-    if PROPS[prop].get("crash_is_violation") and ("fatal error:" in r.stderr or "panic: " in r.stderr):
+    need = PROPS[prop].get("crash_needs_phase")
+    if PROPS[prop].get("crash_is_violation") and ("fatal error:" in r.stderr or "panic: " in r.stderr) and (not need or need in r.stdout):
         print("REPLAY: the process under test died while replaying this run (runtime crash)")
         print("VIOLATION property=%s replay=%s" % (prop, os.path.abspath(path)))
         return 1
